@@ -240,6 +240,26 @@ theorem rowOk_sound (r : OpRow) (h : rowOk r = true) (hf : r.fillFirst = false) 
 theorem opsTable_ok : opsTable.all rowOk = true := by
   decide
 
+/-- a row of the extracted table computes what the documentation says its function computes -/
+def rowSpecOk (r : OpRow) : Bool :=
+  match opSpec r.name with
+  | some (u, un, io, ff, fo) =>
+    r.ufunc == u && r.union == un && r.intOnly == io && r.fillFirst == ff && ((r.dtypeOut == "f8") == fo)
+  | none => false
+
+/-- **generated obligation**: every wrapper of /repo's operations.py hands `_apply_operation`
+    the ufunc, the union / intersection mode, the integer-only flag, the seeding flag and the
+    output type that its documentation prescribes (re-proved on every run; a wrapper that
+    folds with another ufunc breaks this proof, and — because the model folds with `opSpec`,
+    see `OpRow.withSpec` — also yields a concrete failing input) -/
+theorem opsTable_spec : opsTable.all rowSpecOk = true := by
+  decide
+
+/-- on the current table the specification changes nothing: the model folds with the very rows
+    the code uses -/
+theorem opsTable_withSpec : opsTable.all (fun r => r.withSpec == r) = true := by
+  decide
+
 /-- the table covers the sixteen named operations for every numeric dtype and wide masks -/
 theorem opsTable_complete :
     ∀ nm ∈ ["sum_union", "sum_intersection", "product_union", "product_intersection",
